@@ -1,12 +1,16 @@
 #!/bin/sh
 # (development) apply a seeded patch to /repo, run the given checks, undo the patch.
 # usage: seedtest.sh <patch.diff> <Cxx>...
+# The evidence files are saved and restored: evidence committed in /verif must come from runs on
+# the unchanged tree only.
 P="$1"; shift
-git -C /repo apply "$P" || { echo "patch does not apply"; exit 2; }
+SAVE=$(mktemp -d /tmp/evsave.XXXXXX); cp -a /verif/evidence/. "$SAVE"/
+git -C /repo apply "$P" || { echo "patch does not apply"; rm -rf "$SAVE"; exit 2; }
 for c in "$@"; do
   python3 /verif/check.py "$c" 2>&1 | grep -v KNOWN-FINDING | tail -2
 done
 git -C /repo checkout -- . 
 git -C /repo status --short | head -3
+cp -a "$SAVE"/. /verif/evidence/; rm -rf "$SAVE"
 # leave the regenerated modules in the state of the unchanged tree
 /verif/build/bin/go2lean /repo /verif/lean/GitSizer/Gen >/dev/null 2>&1; /verif/build/bin/gofacts /repo /verif/lean/GitSizer/Gen >/dev/null 2>&1
